@@ -187,6 +187,15 @@ pub struct SerdeFieldAttributes {
     pub rename: Option<String>,
     pub skip: bool,
 }
+
+/// Verification hooks: re-export private helpers to the out-of-tree native replay harness
+#[cfg(feature = "verif-hooks")]
+pub mod verif_hooks {
+    pub fn parse_meta_items(tokens: &str) -> Vec<(String, Option<String>)> {
+        super::parse_meta_items(tokens)
+    }
+}
+
 #[cfg(test)]
 mod tests {
     use super::*;
